@@ -1,8 +1,252 @@
-//! C15 — stub, to be written.
+//! C15: expressions, the `bdd!` macro and Bdd-to-expression export denote the same function.
 #[path = "../common.rs"]
 mod common;
+#[path = "../exprio.rs"]
+mod exprio;
+use biodivine_lib_bdd::boolean_expression::BooleanExpression;
+use biodivine_lib_bdd::boolean_expression::BooleanExpression::*;
+use biodivine_lib_bdd::*;
 use common::*;
+use exprio::*;
+use std::convert::TryFrom;
 
-pub fn run(key: &str, _a: &[String], _out: &mut Out) { panic!("unknown key {}", key) }
-pub fn gen(_tier: Tier, _rng: &mut Rng64, _out: &mut Out) {}
+/// names field: percent-encoded names joined by `,`; `~` = no variable
+fn names_field(names: &[String]) -> String {
+    if names.is_empty() { s("~") } else { names.iter().map(|n| enc_name(n)).collect::<Vec<_>>().join(",") }
+}
+fn parse_names(x: &str) -> Vec<String> {
+    if x == "~" { vec![] } else { x.split(',').map(dec_raw).collect() }
+}
+fn var_set(names: &[String]) -> BddVariableSet {
+    let refs: Vec<&str> = names.iter().map(|x| x.as_str()).collect();
+    BddVariableSet::new(&refs)
+}
+
+/// the fixed list of macro invocations next to the equivalent method chains:
+/// (meaning as an S-expression over a, b, c; value of the macro form; value of the method chain)
+fn macro_case(idx: usize) -> Option<(&'static str, Bdd, Bdd)> {
+    let mut builder = BddVariableSetBuilder::new();
+    let [a, b, c] = builder.make(&["a", "b", "c"]);
+    let vars = builder.build();
+    let (ba, bb, bc) = (vars.mk_var(a), vars.mk_var(b), vars.mk_var(c));
+    let (ra, rb, rc) = (&ba, &bb, &bc);
+    let _ = (ra, rb, rc);
+    Some(match idx {
+        // ---- with a variable set: BddVariable, &str and Bdd atoms
+        0 => ("v(a)", bdd!(vars, a), vars.mk_var(a)),
+        1 => ("v(b)", bdd!(vars, "b"), vars.mk_var_by_name("b")),
+        2 => ("not(v(a))", bdd!(vars, !a), vars.mk_var(a).not()),
+        3 => ("and(v(a),v(b))", bdd!(vars, a & b), vars.mk_var(a).and(&vars.mk_var(b))),
+        4 => ("or(v(a),v(b))", bdd!(vars, a | b), vars.mk_var(a).or(&vars.mk_var(b))),
+        5 => ("iff(v(a),v(b))", bdd!(vars, a <=> b), vars.mk_var(a).iff(&vars.mk_var(b))),
+        6 => ("imp(v(a),v(b))", bdd!(vars, a => b), vars.mk_var(a).imp(&vars.mk_var(b))),
+        7 => ("xor(v(a),v(b))", bdd!(vars, a ^ b), vars.mk_var(a).xor(&vars.mk_var(b))),
+        8 => ("imp(v(b),v(a))", bdd!(vars, b => a), vars.mk_var(b).imp(&vars.mk_var(a))),
+        9 => ("not(v(c))", bdd!(vars, !"c"), vars.mk_var_by_name("c").not()),
+        10 => ("and(v(a),v(c))", bdd!(vars, "a" & "c"), vars.mk_var_by_name("a").and(&vars.mk_var_by_name("c"))),
+        11 => ("or(and(v(a),v(b)),v(c))", bdd!(vars, (a & b) | c), vars.mk_var(a).and(&vars.mk_var(b)).or(&vars.mk_var(c))),
+        12 => ("and(v(a),or(v(b),v(c)))", bdd!(vars, a & (b | c)), vars.mk_var(a).and(&vars.mk_var(b).or(&vars.mk_var(c)))),
+        13 => ("imp(not(v(a)),xor(v(b),v(c)))", bdd!(vars, (!a) => ("b" ^ c)), vars.mk_var(a).not().imp(&vars.mk_var(b).xor(&vars.mk_var(c)))),
+        14 => ("and(v(a),imp(not(v(b)),xor(v(c),v(a))))", bdd!(vars, a & ((!"b") => ("c" ^ a))),
+               vars.mk_var(a).and(&vars.mk_var(b).not().imp(&vars.mk_var(c).xor(&vars.mk_var(a))))),
+        15 => ("and(or(v(b),xor(v(a),v(c))),v(a))", bdd!(vars, (b | ("a" ^ c)) & "a"),
+               vars.mk_var(b).or(&vars.mk_var(a).xor(&vars.mk_var(c))).and(&vars.mk_var(a))),
+        16 => ("v(a)", bdd!(vars, ((a))), vars.mk_var(a)),
+        17 => ("not(not(v(a)))", bdd!(vars, !(!a)), vars.mk_var(a).not().not()),
+        18 => ("or(iff(v(a),not(v(b))),xor(v(c),v(a)))", bdd!(vars, (a <=> (!b)) | (c ^ a)),
+               vars.mk_var(a).iff(&vars.mk_var(b).not()).or(&vars.mk_var(c).xor(&vars.mk_var(a)))),
+        19 => ("or(iff(v(a),not(v(b))),xor(v(c),v(a)))", bdd!(vars, ("a" <=> (!"b")) | ("c" ^ "a")),
+               vars.mk_var(a).iff(&vars.mk_var(b).not()).or(&vars.mk_var(c).xor(&vars.mk_var(a)))),
+        20 => ("and(v(a),v(b))", bdd!(vars, ra & b), ba.and(&bb)),
+        21 => ("iff(imp(v(a),v(b)),imp(not(v(b)),not(v(a))))", bdd!(vars, (a => b) <=> ((!b) => (!a))),
+               vars.mk_var(a).imp(&vars.mk_var(b)).iff(&vars.mk_var(b).not().imp(&vars.mk_var(a).not()))),
+        22 => ("xor(xor(v(a),v(b)),v(c))", bdd!(vars, (a ^ b) ^ c), vars.mk_var(a).xor(&vars.mk_var(b)).xor(&vars.mk_var(c))),
+        23 => ("imp(v(a),imp(v(b),v(c)))", bdd!(vars, a => (b => c)), vars.mk_var(a).imp(&vars.mk_var(b).imp(&vars.mk_var(c)))),
+        // ---- without a variable set: Bdd objects only
+        24 => ("v(a)", { let x = ba.clone(); bdd!(x) }, ba.clone()),
+        25 => ("not(v(a))", bdd!(!ba), ba.not()),
+        26 => ("and(v(a),v(b))", bdd!(ba & bb), ba.and(&bb)),
+        27 => ("or(v(a),v(b))", bdd!(ba | bb), ba.or(&bb)),
+        28 => ("iff(v(a),v(b))", bdd!(ba <=> bb), ba.iff(&bb)),
+        29 => ("imp(v(a),v(b))", bdd!(ba => bb), ba.imp(&bb)),
+        30 => ("xor(v(a),v(b))", bdd!(ba ^ bb), ba.xor(&bb)),
+        31 => ("imp(v(b),v(a))", bdd!(bb => ba), bb.imp(&ba)),
+        32 => ("or(and(v(a),v(b)),v(c))", bdd!((ba & bb) | bc), ba.and(&bb).or(&bc)),
+        33 => ("or(iff(v(a),not(v(b))),xor(v(c),v(a)))", bdd!((ba <=> (!bb)) | (bc ^ ba)), ba.iff(&bb.not()).or(&bc.xor(&ba))),
+        34 => ("v(c)", { let x = bc.clone(); bdd!(((x))) }, bc.clone()),
+        35 => ("not(and(v(a),not(v(b))))", bdd!(!(ba & (!bb))), ba.and(&bb.not()).not()),
+        36 => ("and(imp(v(a),v(b)),imp(v(b),v(a)))", bdd!((ba => bb) & (bb => ba)), ba.imp(&bb).and(&bb.imp(&ba))),
+        37 => ("iff(xor(v(a),v(b)),not(iff(v(a),v(b))))", bdd!((ba ^ bb) <=> (!(ba <=> bb))), ba.xor(&bb).iff(&ba.iff(&bb).not())),
+        _ => return None,
+    })
+}
+const MACRO_CASES: usize = 38;
+
+fn opt_bdd(r: Option<Option<Bdd>>) -> String {
+    match r { None => s("panic"), Some(None) => s("none"), Some(Some(b)) => fmt_bdd(&b) }
+}
+
+pub fn run(key: &str, a: &[String], out: &mut Out) {
+    match key {
+        // names tree => Bdd | none | panic        (safe_eval_expression)
+        "C15.eval" => {
+            let vars = var_set(&parse_names(&a[0]));
+            let e = unsexp(&a[1]);
+            let r = catch(|| vars.safe_eval_expression(&e));
+            // eval_expression = unwrap: panics exactly when safe_eval_expression is None
+            let r2 = catch(|| vars.eval_expression(&e));
+            out.case(key, a, &[opt_bdd(r), fmt_res_bdd(&r2)]);
+        }
+        // names string => Bdd | panic             (eval_expression_string)
+        "C15.evals" => {
+            let vars = var_set(&parse_names(&a[0]));
+            let x = dec(&a[1]);
+            let r = catch(|| vars.eval_expression_string(&x));
+            out.case(key, a, &[fmt_res_bdd(&r)]);
+        }
+        // names bdd => export, eval(export), eval(parse(print(export)))
+        "C15.export" | "C15.exportbad" => {
+            let vars = var_set(&parse_names(&a[0]));
+            let b = Bdd::from_string(&a[1]);
+            match catch(|| b.to_boolean_expression(&vars)) {
+                None => out.case(key, a, &[s("panic"), s("-"), s("-")]),
+                Some(e) => {
+                    let direct = catch(|| vars.safe_eval_expression(&e));
+                    let printed = format!("{}", e);
+                    let reparsed = catch(|| BooleanExpression::try_from(printed.as_str()).ok().and_then(|e2| vars.safe_eval_expression(&e2)));
+                    out.case(key, a, &[sexp(&e), opt_bdd(direct), opt_bdd(reparsed)]);
+                }
+            }
+        }
+        // idx meaning => equal? macro-value chain-value
+        "C15.macro" => {
+            let idx: usize = a[0].parse().unwrap();
+            match catch(|| macro_case(idx)) {
+                Some(Some((meaning, m, c))) => {
+                    assert_eq!(meaning, a[1], "macro table out of sync with the case line");
+                    out.case(key, a, &[s(if m == c { "1" } else { "0" }), fmt_bdd(&m), fmt_bdd(&c)]);
+                }
+                _ => out.case(key, a, &[s("panic"), s("-"), s("-")]),
+            }
+        }
+        _ => panic!("unknown key {}", key),
+    }
+}
+
+// ------------------------------------------------------------------------------------------------
+
+fn build_trees(max: usize, leaves: &[BooleanExpression]) -> Vec<Vec<BooleanExpression>> {
+    let mut memo: Vec<Vec<BooleanExpression>> = vec![vec![], leaves.to_vec()];
+    for size in 2..=max {
+        let mut cur = vec![];
+        for x in &memo[size - 1] { cur.push(Not(Box::new(x.clone()))); }
+        for ls in 1..size - 1 {
+            let rs = size - 1 - ls;
+            for l in &memo[ls] { for r in &memo[rs] {
+                let (l, r) = (Box::new(l.clone()), Box::new(r.clone()));
+                cur.push(And(l.clone(), r.clone())); cur.push(Or(l.clone(), r.clone())); cur.push(Xor(l.clone(), r.clone()));
+                cur.push(Imp(l.clone(), r.clone())); cur.push(Iff(l, r));
+            } }
+        }
+        for x in 1..size { for y in 1..size {
+            if x + y + 1 >= size { continue; }
+            let z = size - 1 - x - y;
+            for p in &memo[x] { for q in &memo[y] { for r in &memo[z] {
+                cur.push(Cond(Box::new(p.clone()), Box::new(q.clone()), Box::new(r.clone())));
+            } } }
+        } }
+        memo.push(cur);
+    }
+    memo
+}
+
+fn random_tree(rng: &mut Rng64, depth: usize, names: &[String], unknown: bool) -> BooleanExpression {
+    if depth == 0 || rng.chance(1, 6) {
+        return match rng.below(10) {
+            0 => Const(true),
+            1 => Const(false),
+            2 if unknown => Variable(s("zz")),
+            _ => if names.is_empty() { Const(rng.bool()) } else { Variable(rng.pick(names).clone()) },
+        };
+    }
+    let sub = |rng: &mut Rng64| Box::new(random_tree(rng, depth - 1, names, unknown));
+    match rng.below(9) {
+        0 | 1 => Not(sub(rng)),
+        2 => And(sub(rng), sub(rng)),
+        3 => Or(sub(rng), sub(rng)),
+        4 => Xor(sub(rng), sub(rng)),
+        5 => Imp(sub(rng), sub(rng)),
+        6 => Iff(sub(rng), sub(rng)),
+        _ => Cond(sub(rng), sub(rng), sub(rng)),
+    }
+}
+
+fn anon(n: usize) -> Vec<String> { (0..n).map(|i| format!("x_{}", i)).collect() }
+const FANCY: [&str; 8] = ["é", "v_1+{14}", "变量", "a.b", "x'", "0", "tru", "a,b"];
+
+pub fn gen(tier: Tier, rng: &mut Rng64, out: &mut Out) {
+    let thorough = tier == Tier::Thorough;
+    // --- macro forms next to method chains
+    for i in 0..MACRO_CASES {
+        let meaning = macro_case(i).unwrap().0;
+        run("C15.macro", &[i.to_string(), s(meaning)], out);
+    }
+    // --- all trees up to size 4 (quick) / 5 (thorough) over three known names, one unknown name, constants
+    let abc: Vec<String> = vec![s("a"), s("b"), s("c")];
+    let leaves = vec![Variable(s("a")), Variable(s("b")), Variable(s("c")), Variable(s("z")), Const(true), Const(false)];
+    let all = build_trees(if thorough { 5 } else { 4 }, &leaves);
+    for sz in 1..all.len() { for e in &all[sz] { run("C15.eval", &[names_field(&abc), sexp(e)], out); } }
+    // size 5 sampled in the quick tier
+    if !thorough {
+        let five = build_trees(5, &leaves);
+        for e in &five[5] { if rng.chance(1, 6) { run("C15.eval", &[names_field(&abc), sexp(e)], out); } }
+    }
+    // --- random larger trees over 0..7 variables, some with an unknown name; strings through eval_expression_string
+    let rounds = if thorough { 60000 } else { 2500 };
+    for i in 0..rounds {
+        let n = (i % 8) as usize;
+        let names: Vec<String> = if i % 5 == 0 && n <= FANCY.len() { FANCY[..n].iter().map(|x| s(x)).collect() } else { anon(n) };
+        let e = random_tree(rng, 2 + (i % 6) as usize, &names, i % 7 == 0);
+        run("C15.eval", &[names_field(&names), sexp(&e)], out);
+        if i % 3 == 0 {
+            let e2 = random_tree(rng, 1 + (i % 4) as usize, &names, i % 11 == 0);
+            let mut text = format!("{}", e2);
+            if i % 9 == 0 { text = text.replace("(", "").replace(")", ""); }   // precedence decides (or a parse error)
+            if i % 31 == 0 { text.push_str(" &"); }
+            run("C15.evals", &[names_field(&names), enc(&text)], out);
+        }
+    }
+    // --- export: all functions over n <= 3, n = 4 all (thorough) / sampled (quick), random 5..7
+    for n in 0..=3usize {
+        let count = 1u64 << (1u64 << n);
+        for t in 0..count {
+            let b = bdd_of_tt(n, &tt_from_index(n, t));
+            run("C15.export", &[names_field(&anon(n)), fmt_bdd(&b)], out);
+        }
+    }
+    let count4 = if thorough { 65536 } else { 3000 };
+    for i in 0..count4 {
+        let t = if thorough { i as u64 } else { rng.below(65536) };
+        let b = bdd_of_tt(4, &tt_from_index(4, t));
+        let names: Vec<String> = if i % 4 == 0 { FANCY[..4].iter().map(|x| s(x)).collect() } else { anon(4) };
+        run("C15.export", &[names_field(&names), fmt_bdd(&b)], out);
+    }
+    for i in 0..(if thorough { 30000 } else { 1500 }) {
+        let n = 5 + (i % 3) as usize;
+        let b = random_bdd(rng, n);
+        run("C15.export", &[names_field(&anon(n)), fmt_bdd(&b)], out);
+        // valid but non-canonical diagrams: the export still denotes the function (no structural claim)
+        if i % 4 == 0 {
+            let v = noncanon_variant(rng, &b);
+            run("C15.export", &[names_field(&anon(n)), fmt_bdd(&v)], out);
+        }
+    }
+    // --- malformed diagrams reaching the `panic!` arm / the indexing panics (model agreement only)
+    for bad in ["|1,0,0|1,1,1|0,1,1|", "|1,0,0|1,1,1|0,0,0|", "|2,0,0|2,1,1|1,0,1|0,2,2|", "|2,0,0|2,1,1|1,0,1|0,1,3|",
+                "|2,0,0|2,1,1|1,0,1|0,5,2|", "|3,0,0|3,1,1|2,0,1|1,2,2|0,3,1|", "|2,0,0|2,1,1|5,0,1|", "|2,0,0|2,1,1|1,1,0|0,0,0|"] {
+        run("C15.exportbad", &[names_field(&anon(2)), s(bad)], out);
+    }
+    run("C15.exportbad", &[names_field(&anon(1)), s("|2,0,0|2,1,1|1,0,1|0,0,2|")], out);
+}
+
 fn main() { harness_main(gen, run) }
